@@ -28,8 +28,8 @@ def spec_strategy(offs=OFFS, market_orders=True, cancels=True, offgrid=True, vol
     if own_cancel:
         alts += [st.tuples(st.just("OC"), mi, st.booleans(), off, vol)]
     if illegal:
-        alts += [st.tuples(st.just("RS"), st.integers(0, 7)), st.tuples(st.just("FA"), mi, st.integers(0, 7)),
-                 st.tuples(st.just("CO"), st.integers(0, 7))]
+        alts += [st.one_of(st.tuples(st.just("RS"), st.integers(0, 7)), st.tuples(st.just("RS"), st.integers(0, 7)),
+                           st.tuples(st.just("FA"), mi, st.integers(0, 7)), st.tuples(st.just("CO"), st.integers(0, 7)))]
     return st.one_of(*alts).map(list)
 
 
@@ -122,6 +122,8 @@ def sim_cases(draw, n_markets=(1, 3), index_prob=2, vol_zero=None, ticks=TICKS, 
         volm = [n for n in names if cfg[n]["fundamentalVolatility"] > 0]
         if len(volm) >= 2 and draw(st.booleans()):
             cfg["simulation"]["fundamentalCorrelations"] = {"pairwise": [[volm[0], volm[1], draw(st.sampled_from([-0.8, -0.3, 0.5, 0.9]))]]}
+    if illegal:
+        illegal = draw(st.integers(0, 2)) == 0  # a third of the cases contain illegal actions
     spec = spec if spec is not None else spec_strategy(illegal=illegal)
     prog = program_strategy(spec, max_actions=max_actions, decline_weight=decline_weight)
     for g in range(draw(st.integers(*groups))):
